@@ -53,23 +53,24 @@ Theorem C06_div_by_one_exact : forall x, PrimFloat.div x PrimFloat.one = x.
 Proof. exact fdiv_one. Qed.
 
 (* binomial_bounds special cases, bit-exact: theta = 1 and zero samples *)
-Theorem C06_binomial_theta_one : forall n sd,
-  approx_lb n PrimFloat.one sd = Exact 1 (fofZ n) /\ approx_ub n PrimFloat.one sd = Exact 1 (fofZ n) /\
+Theorem C06_binomial_theta_one : forall n sd pw,
+  approx_lb n PrimFloat.one sd pw = Exact 1 (fofZ n) /\ approx_ub n PrimFloat.one sd pw = Exact 1 (fofZ n) /\
   bb_est fops n PrimFloat.one = fofZ n /\ bb_lb fops n PrimFloat.one (fofZ n) = fofZ n /\ bb_ub fops n PrimFloat.one (fofZ n) = fofZ n.
-Proof. intros. destruct (approx_theta_one n sd), (bb_theta_one n) as (? & ? & ?). auto. Qed.
+Proof. intros. destruct (approx_theta_one n sd pw), (bb_theta_one n) as (? & ? & ?). auto. Qed.
 
-Theorem C06_binomial_zero_samples : forall theta sd, PrimFloat.ltb PrimFloat.zero theta = true ->
-  (approx_lb 0 theta sd = Exact 1 PrimFloat.zero \/ approx_lb 0 theta sd = Exact 2 PrimFloat.zero) /\
+Theorem C06_binomial_zero_samples : forall theta sd pw, PrimFloat.ltb PrimFloat.zero theta = true ->
+  (approx_lb 0 theta sd pw = Exact 1 PrimFloat.zero \/ approx_lb 0 theta sd pw = Exact 2 PrimFloat.zero) /\
   bb_est fops 0 theta = PrimFloat.zero /\ bb_lb fops 0 theta PrimFloat.zero = PrimFloat.zero.
 Proof. intros. split; [apply approx_lb_zero_samples | now apply bb_zero_samples]. Qed.
 
-(* branch structure of the inner approximations: table branch (6) and exact-tail branch (7) only in the table's range *)
-Theorem C06_binomial_branch_structure : forall n theta sd, 0 <= n ->
-  match approx_lb n theta sd with
-  | Exact 6 _ => 2 <= n <= 120 | Libm 7 => 2 <= n <= 120 | Libm 3 => n = 1 | Exact 2 _ => n = 0 | Exact 4 _ => 120 < n | _ => True
+(* branch structure of the inner approximations: table branch (6) and exact-tail branch (7) only in the table's range
+   ([pw] = pow(theta, n) resp. pow(theta, n+1), the only libm value of the exact tails) *)
+Theorem C06_binomial_branch_structure : forall n theta sd pw, 0 <= n ->
+  match approx_lb n theta sd pw with
+  | Exact 6 _ => 2 <= n <= 120 | Exact 7 _ => 2 <= n <= 120 | Libm 7 => 2 <= n <= 120 | Libm 3 => n = 1 | Exact 2 _ => n = 0 | Exact 4 _ => 120 < n | _ => True
   end /\
-  match approx_ub n theta sd with
-  | Exact 6 _ => 1 <= n <= 120 | Libm 7 => 1 <= n <= 120 | Libm 2 => n = 0 | Exact 4 _ => 120 < n | _ => True
+  match approx_ub n theta sd pw with
+  | Exact 6 _ => 1 <= n <= 120 | Exact 7 _ => 1 <= n <= 120 | Libm 7 => 1 <= n <= 120 | Libm 2 => n = 0 | Exact 4 _ => 120 < n | _ => True
   end.
 Proof. intros. split; [now apply approx_lb_branches | now apply approx_ub_branches]. Qed.
 
@@ -178,19 +179,27 @@ Theorem C06_cpc_tables_ok :
           (cpc_ICON_LOW_SIDE_DATA ++ cpc_ICON_HIGH_SIDE_DATA ++ cpc_HIP_LOW_SIDE_DATA ++ cpc_HIP_HIGH_SIDE_DATA) = true.
 Proof. exact cpc_tables_ok. Qed.
 
+Theorem C06_composite_tables_ok :
+  Z.of_nat (length composite_xArrs) = hll_MAX_LOG_K - hll_MIN_LOG_K + 1 /\
+  length composite_yStrides = length composite_xArrs /\
+  forallb (fun r => (Z.of_nat (length r) =? composite_numXArrValues) && sorted_strict r && fpos (fnth r 0)) composite_xArrs = true /\
+  forallb (fun v => 0 <? v) composite_yStrides = true /\ 4 <= composite_numXArrValues.
+Proof. exact composite_tables_ok. Qed.
+
 (* the published tables and constants are pinned by a digest over their binary64 bit patterns: extra decimal digits that
    round to the same double are tolerated, a changed entry is not *)
 Theorem C06_tables_pinned : all_digests =
   [1631660916400092824; 1336942135380431933; 1334016574715188835; 367845026185637098; 1621689400017352834;
    2238524135473666140; 534981407937136847; 1630260656333221549; 260266529527383061; 193657861660872282;
-   1607972753685019361; 1883696197063475363; 1870653436784715027; 1435897921207620034; 2245007942206803064].
+   1607972753685019361; 1883696197063475363; 1870653436784715027; 1435897921207620034; 2245007942206803064;
+   2021821944066709579; 356755886151464469].
 Proof. exact tables_pinned. Qed.
 
 (* ---- non-vacuity: concrete evaluations of the extracted definitions ---- *)
 (* estimation mode, n = 50, theta = 1/16: lb < est < ub with the model's own inner approximations (table branch 6) *)
 Example C06_nonvacuous_binomial :
   let theta := theta_frac 576460752303423488 in
-  match approx_lb 50 theta 2, approx_ub 50 theta 2 with
+  match approx_lb 50 theta 2 PrimFloat.one, approx_ub 50 theta 2 PrimFloat.one with
   | Exact 6 il, Exact 6 iu =>
       PrimFloat.ltb (sk_lb fops true 50 theta il) (sk_est fops 50 theta) && PrimFloat.ltb (sk_est fops 50 theta) (sk_ub fops true 50 theta iu)
       && PrimFloat.ltb (fofZ 50) (sk_lb fops true 50 theta il) && PrimFloat.eqb (sk_est fops 50 theta) (fofZ 800)
@@ -249,4 +258,5 @@ Print Assumptions C06_hll_rel_err_ok.
 Print Assumptions C06_coupon_tables_ok.
 Print Assumptions C06_cpc_eps_ok.
 Print Assumptions C06_cpc_tables_ok.
+Print Assumptions C06_composite_tables_ok.
 Print Assumptions C06_tables_pinned.
